@@ -148,6 +148,13 @@ def main(argv=None):
         traceback.print_exc()
         return 2
 
+    try:
+        from . import sim as _sim
+
+        _sim.cleanup_sandbox()
+    except Exception:  # noqa: BLE001
+        pass
+
     # 2. the search
     ncpu = os.cpu_count() or 1
     nshards = a.jobs or min(16, ncpu)
